@@ -51,7 +51,11 @@ Proof.
       split; [rewrite A1, A2, <- app_assoc; reflexivity|]. split; [exact B2|].
       rewrite C2, render_all_app, render_all_cons, !zlen_app, page_bytes_len. f_equal; lia. }
   destruct c; cbn [ogg_f_locate]; intros H.
-  - apply need_ok in H. destruct (F1 _ _ _ _ H) as (b & r & A & B & C). exists b, r. rewrite Z.add_0_l in C. auto.
+  - (* Vorbis *)
+    destruct (ogg_f_find (ogg_f_pk0 ogg_f_vorbis1) (ogg_offs 0 pages)) as [[|h r]|] eqn:E1; try discriminate.
+    apply need_ok in H.
+    apply (F2 (ogg_f_pk0 ogg_f_vorbis1) (fun p => (p_serial p =? p_serial (snd h)) && ogg_f_pk0 ogg_f_vorbis3 p) false).
+    rewrite E1. exact H.
   - (* Opus *)
     destruct (ogg_f_find (ogg_f_pk0 ogg_f_opushead) (ogg_offs 0 pages)) as [[|h r]|] eqn:E1; try discriminate.
     destruct (negb (first (snd h))); [discriminate|].
@@ -64,7 +68,11 @@ Proof.
     destruct (ogg_f_find (ogg_f_pk0 ogg_f_speex) (ogg_offs 0 pages)) as [[|h r]|] eqn:E1; try discriminate.
     apply need_ok in H.
     apply (F2 (ogg_f_pk0 ogg_f_speex) (fun p => p_serial p =? p_serial (snd h)) false). rewrite E1. exact H.
-  - apply need_ok in H. destruct (F1 _ _ _ _ H) as (b & r & A & B & C). exists b, r. rewrite Z.add_0_l in C. auto.
+  - (* Theora *)
+    destruct (ogg_f_find (ogg_f_pk0 ogg_f_theora80) (ogg_offs 0 pages)) as [[|h r]|] eqn:E1; try discriminate.
+    apply need_ok in H.
+    apply (F2 (ogg_f_pk0 ogg_f_theora80) (fun p => (p_serial p =? p_serial (snd h)) && ogg_f_pk0 ogg_f_theora81 p) false).
+    rewrite E1. exact H.
   - (* OggFLAC *)
     destruct (ogg_f_find (ogg_f_pk0 ogg_f_7fflac) (ogg_offs 0 pages)) as [[|h r]|] eqn:E1; try discriminate.
     apply need_ok in H.
